@@ -128,14 +128,20 @@ let () =
         let inv32 = Int32.float_of_bits (Int32.bits_of_float (1.0 /. ord)) in   (* 1.f/ord is a float *)
         let model = (match remove_dims s ax kd with
           | None -> "ub"
-          | Some shp -> show_view fl shp (fun i -> match reduce_at (+.) src s ax kd None i with
-                                                   | Some v -> Some (Float.pow v inv32) | None -> None)) in
+          | Some shp ->
+            (* axis=None, keepdims=False: the sum is a 0-dim view and power_t converts a view operand to
+               common_type_t<view,float> = float: the root is taken in single precision *)
+            let f32 x = Int32.float_of_bits (Int32.bits_of_float x) in
+            let single = (ax = AxNone && not kd) in
+            show_view fl shp (fun i -> match reduce_at (+.) src s ax kd None i with
+                                       | Some v -> Some (if single then f32 (Float.pow (f32 v) inv32) else Float.pow v inv32)
+                                       | None -> None)) in
         let spec = if not ok then "unspecified" else begin
           let mask = red_mask (nat_of_int (List.length s)) ax in
           show_view fl (reduce_shape_spec s ax kd) (fun i ->
             let l = spec_elems src mask s (if kd then drop_reduced mask i else i) in
             Some (Float.pow (List.fold_left (+.) 0.0 l) (1.0 /. ord))) end in
-        { model; spec; dom = posb s && ok }
+        { model; spec; dom = posb s && ok && not (ax = AxNone && not kd) }
     | _ -> failwith "vnorm");
   (* trace A:arr — view::trace = sum(diagonal(a, 0, 0, 1), axis=-1): the diagonal view puts the diagonal last *)
   register "trace" (fun a -> match a with
